@@ -44,15 +44,14 @@ def op_fh(r, vt, th, op="fh"):
                                                                   mask, planes(r, vt, n, style), planes(r, vt, n, style))
 
 def pow2_if_signed(r, vt, th):
-    """outside `fh` signed views use bin widths for which unsigned and signed division agree up to rounding (known finding otherwise)"""
-    if VT[vt][0] in ("i8", "i16"): return r.choice([1, 1, 2, 4])
+    """bin width for the non-`fh` ops (the name dates from before fix 1570f66, when signed views needed powers of two)"""
     return r.range(1, 8 if th else 4)
 
 def gen_ops(ctx):
     r, th = ctx.rng, ctx.thorough()
     ops = []
     # deterministic witnesses first
-    ops.append("fh g8 all 1 1 0 0 0 3 1 | 0 | 8 | 1 1 1 | 1 2 3 | 5 5 6")              # accumulate + dense
+    ops.append("fh g8 all 1 1 0 0 0 3 1 | 0 | 8 | 1 1 1 | 1 2 3 | 5 5 6")              # accumulate + dense (witness of a fixed finding)
     ops.append("fh g8s all 3 0 1 0 0 3 1 | -128 | 127 | 1 1 1 | 1 2 3 | -1 -2 -3")      # signed, bin width 3
     for vt in VT:
         for _ in range(900 if th else 260): ops.append(op_fh(r, vt, th))
@@ -89,7 +88,7 @@ ASSUME = [
     "bin counts are stored as double in the C++ and as Nat in the model: exact below 2^53 counts",
     "std::unordered_map is modelled by an association list with operator[] / operator[]++ / assignment; iteration order is never observed (bins are printed sorted)",
     "key type of the sparse histogram: int on every axis (histogram<int,...>), plus histogram<unsigned char> for the dense pre-fill on gray8; other key types are outside the run",
-    "dense pre-fill: lower <= upper (its termination contract, theorem C19_prefill_terminates) and, for unsigned views, lower >= 0",
+    "dense pre-fill: lower <= upper (its termination contract, theorem C19_prefill_terminates)",
     "normalize is judged with tolerance (sum within 1e-12 of 1, bins within 1e-15 of count/total): partial (float); the exact-arithmetic statement is theorem C19_normalize_sum_one",
     "range sub-histogram over several axes uses std::tuple's lexicographic <= as coded; for one axis this is the interval test",
     "std::array filler is run only for gray8 with N = 256 (scale factor 1.0f); other N involve float rounding and are not covered",
